@@ -1820,7 +1820,8 @@ namespace bloch::compiler {
             if (unary->op == "-") {
                 auto val = evaluateConstInt(unary->right.get());
                 if (val)
-                    return -*val;
+                    return static_cast<int>(static_cast<std::uint32_t>(
+                        -static_cast<std::int64_t>(*val)));
             }
             return std::nullopt;
         }
@@ -1835,12 +1836,17 @@ namespace bloch::compiler {
             auto right = evaluateConstInt(bin->right.get());
             if (!left || !right)
                 return std::nullopt;
+            // int arithmetic wraps, as it does in the evaluator; computed in 64 bits and narrowed so
+            // that the analyser itself never overflows a signed int
+            auto wrap = [](std::int64_t v) {
+                return static_cast<int>(static_cast<std::uint32_t>(static_cast<std::uint64_t>(v)));
+            };
             if (bin->op == "+")
-                return *left + *right;
+                return wrap(static_cast<std::int64_t>(*left) + *right);
             if (bin->op == "-")
-                return *left - *right;
+                return wrap(static_cast<std::int64_t>(*left) - *right);
             if (bin->op == "*")
-                return *left * *right;
+                return wrap(static_cast<std::int64_t>(*left) * *right);
             if (bin->op == "/") {
                 if (*right == 0)
                     throw BlochError(ErrorCategory::Semantic, bin->line, bin->column,
